@@ -15,7 +15,16 @@ git -C /repo worktree remove --force $wt 2>/dev/null
 git -C /repo worktree add --detach $wt HEAD -q || { echo "worktree failed" >> $log; exit 1; }
 cd $wt
 demo_dir=$(jq -r '.demo_dir' $src/meta.json)
-demo_cmd=$(jq -r '.demo_cmd' $src/meta.json)
+demo_cmd=$(python3 - "$src/meta.json" <<'PY'
+import json,re,sys
+c=json.load(open(sys.argv[1]))['demo_cmd']
+run=re.search(r"-run\s+'([^']+)'",c) or re.search(r'-run\s+"?([^\s"]+)',c)
+pkg=re.search(r"(\./[\w/]+)",c[c.index('go test'):])
+race='-race ' if re.search(r'go test[^(]*-race', c) else ''
+cnt=re.search(r"-count[= ](\d+)",c)
+print("go test -vet=off %s-count=%s -timeout 20m -run '%s' %s/"%(race,cnt.group(1) if cnt else '1',run.group(1),pkg.group(1).rstrip('/')))
+PY
+)
 echo "HEAD $(git rev-parse --short HEAD) demo_dir=$demo_dir demo_cmd=$demo_cmd" >> $log
 if ! git apply --check $src/patch.diff 2>>$log; then echo "RESULT patch-does-not-apply" >> $log; cd /; git -C /repo worktree remove --force $wt; exit 1; fi
 git apply $src/patch.diff
